@@ -60,6 +60,9 @@ def plan(tier, seed):
         out += L.split_plan("ordered:O3x2x2", spaces.shape_pairs(3, 2), o2, 25, {"family": "ordered", "costs": v3[:2]})
         out += L.split_plan("unordered:U3x2x2", spaces.shape_pairs(3, 2), u2, 25, {"family": "unordered", "costs": v3[:2]})
         out += L.split_plan("unordered:U3x1x3", spaces.shape_pairs(3, 1), u3, 25, {"family": "unordered", "costs": v3[:1]})
+        # 4-leaf chains on one species, 3 families: cost-response transformations only (scaling x2 / x3, each unit cost + 1)
+        out += L.split_plan("unordered:U4chainx1x3/costs", [(sh, None) for sh in spaces.chain_shapes(4)], u3, 40,
+                            {"family": "unordered", "costs": v3[:1], "kinds": ["scale", "mono"]})
         # three and four species leaves, one family: clades at the same depth in different halves of the species tree, so
         # that child order decides which of two tied placements a solver visits first
         out += L.split_plan("unordered:U3x4x1", spaces.shape_pairs(3, 4, min_sp=3), spaces.unordered_syntenies(1), 16,
@@ -266,7 +269,7 @@ def transformations(onest, snest, costs, family):
     return out
 
 
-def check_input(algo, family, osh, ssh, leafmap, leafsyn, costs, only=None):
+def check_input(algo, family, osh, ssh, leafmap, leafsyn, costs, only=None, kinds=None):
     """-> (list of (subcheck, detail), nontrivial, runs)"""
     onest, snest = nest(osh), nest(ssh)
     base = Pres(onest, snest, leafmap, leafsyn, costs)
@@ -280,6 +283,8 @@ def check_input(algo, family, osh, ssh, leafmap, leafsyn, costs, only=None):
     runs = 1
     for name, kind, kw in transformations(onest, snest, costs, family):
         if only and name != only:
+            continue
+        if kinds and kind not in kinds:
             continue
         k = kw.pop("k", None)
         p = Pres(kw.get("onest", onest), kw.get("snest", snest), leafmap, leafsyn, kw.get("costs", costs),
@@ -416,7 +421,7 @@ def run_shard(shard, tier, seed):
         n_inputs += 1
         for costs in shard["costs"]:
             for algo in algos:
-                bad, is_nt, runs = check_input(algo, fam, osh, ssh, leafmap, leafsyn, costs)
+                bad, is_nt, runs = check_input(algo, fam, osh, ssh, leafmap, leafsyn, costs, kinds=shard.get("kinds"))
                 n_eval += runs
                 counters["solver_runs"] += runs
                 if is_nt:
